@@ -80,6 +80,8 @@ type Sim struct {
 	metrics *metricsRec
 	forceFull bool
 	bias      string // "", "grow", "shrink" (wide schemas)
+	forceSet  []*simTable // table set of the next RunTxn (nested transactions)
+	zombies   []statedb.ChangeIterator[*Obj] // iterators created in transactions that aborted (kept reachable, not closed)
 	gcChecks int
 	gcPauses int
 	nextN   uint64
@@ -615,10 +617,17 @@ func (s *Sim) RunTxn(i int) {
 	var set []*simTable
 	inSet := map[*simTable]bool{}
 	for _, t := range s.Tabs {
+		if s.forceSet != nil {
+			break
+		}
 		if s.Rng.IntN(2) == 0 {
 			set = append(set, t)
 			inSet[t] = true
 		}
+	}
+	for _, t := range s.forceSet {
+		set = append(set, t)
+		inSet[t] = true
 	}
 	if len(set) == 0 {
 		t := s.Tabs[s.Rng.IntN(len(s.Tabs))]
@@ -637,9 +646,10 @@ func (s *Sim) RunTxn(i int) {
 	s.Rng.Shuffle(len(metas), func(a, b int) { metas[a], metas[b] = metas[b], metas[a] })
 	s.Logf("%s WriteTxn(%s)", what, strings.Join(names, ","))
 	wtxn := s.DB.WriteTxn(metas...)
+	prevOpen := s.open
 	s.open = wtxn
 	s.txnBefore = s.closedStates()
-	defer func() { s.open = nil; s.txnBefore = nil }()
+	defer func() { s.open = prevOpen; s.txnBefore = nil }()
 	working := map[*simTable]*TableModel{}
 	for _, t := range s.Tabs {
 		if inSet[t] {
